@@ -195,6 +195,18 @@ def handle (op : String) (args : List String) : Option String :=
     match ← args.mapM parseFl with
     | [lp, ls, li, ns, ni, np, ngs, ngi] => pure (fl (countsCorrection lp ls li ns ni np ngs ngi))
     | _ => none
+  | "jsi_singles_raw" => do
+    -- `ωs ωi ωp0 bandwidth threshold fs` ⇒ jsi_singles_raw, with `fs` the singles phase-matching value
+    match ← args.mapM parseFl with
+    | [ωs, ωi, ωp, bw, thr, fs] =>
+      let S : Setup Float := ⟨1.0, ⟨0.0, 0.0, 0.0, 1.0, 1.0, 0.0, 1.0, fun _ => 1.0, ωs, .o⟩,
+        ⟨0.0, 0.0, 0.0, 1.0, 1.0, 0.0, 1.0, fun _ => 1.0, ωi, .o⟩, 1.0, 1.0, fun _ => 1.0, 0.0, 0.0,
+        fun _ => 1.0, .t0_o_oo⟩
+      let J : JSetup Float :=
+        { toSetup := S, omegaP := ωp, bandwidth := bw, threshold := thr, power := 1.0, deff := 1.0,
+          ppOn := false }
+      pure (fl (jsiSinglesRaw (fun _ _ _ => fs) J ωs ωi))
+    | _ => none
   | "pm_consts" =>
     pure (fls [(cLight : Float), (eps0 : Float), (twoPi : Float), (Transc.pi : Float),
       (fwhmOverWaist : Float)])
